@@ -947,7 +947,20 @@ impl C11 {
 					out.fail("c11:honest-reply-proof-invalid", format!("the recipient's reply does not carry its valid signature over (amount {}, excess, sender address)", f.amount));
 				}
 				evals += 1;
-				match sim.finalize(si) {
+				// the user may have left the other account active when the reply arrives: that finalize is either refused
+				// (and repeated under the sending account) or, if accepted, subject to everything below
+				let other_acct = c.pre_acct as usize % ACCOUNTS.len();
+				let mut first = None;
+				if other_acct != acct {
+					match sim.finalize_under(si, other_acct) {
+						Ok(()) => {
+							out.class("honest:finalized-under-other-account");
+							first = Some(Ok(()));
+						}
+						Err(_) => out.class("honest:finalize-under-other-account-refused"),
+					}
+				}
+				match first.unwrap_or_else(|| sim.finalize(si)) {
 					Ok(()) => {
 						out.class("honest:finalized");
 						honest = Some(Honest { si, facts: f, saddr_altered: false });
